@@ -2,8 +2,8 @@
 from reg._common import COMMON_ASSUME
 
 ENTRY = {
-    'lean_files': ['Tables/C19.lean', 'Props/C15.lean'],
-    'lemma_files': ['Lemmas/Algebraic.lean', 'Model/Algebraic.lean', 'Model/Curve.lean', 'Model/Basic.lean'],
+    'lean_files': ['Tables/C19.lean', 'Props/C15.lean', 'Props/C15Algebraic.lean'],
+    'lemma_files': ['Lemmas/AlgebraicSound.lean', 'Lemmas/Resultant.lean', 'Model/AlgebraicAssembly.lean', 'Lemmas/Algebraic.lean', 'Model/Algebraic.lean', 'Model/Curve.lean', 'Model/Basic.lean'],
     'extractors': ['extract_algebraic.py'],
     'script': 'props/c15.py',
     'rule': 'cases = (ordered pair of planar control nets, presentation (each curve exactly degree-elevated 0..2 times, both '
@@ -27,11 +27,12 @@ ENTRY = {
             'algebraic strategy is counted); on a deviation the nine edge pairs are examined with the isolator to name the cause. '
             'non-trivial = in-domain pair / refusal case with meeting boxes / triangle pair with a non-empty intersection; distinct '
             'by hash of the exact presented nets and route',
-    'partial': ['Lean: dispatch / refusal theorems and Vandermonde table obligations (Tables/C15, Props/C15); the eigenvalue / '
-                'polyroots / matrix-rank solvers are oracles, so agreement of the floating-point pipelines rests on the '
-                'differential runs',
-                'equality is not claimed for degree products 6..9 (least-squares fit): silent misses there are measured and kept '
-                'visible as pinned probes'],
+    'partial': [
+                'the final assembly of the algebraic all_intersections (root loop, locate_point for the other parameter, Newton polish, wiggle_interval, swap back) is inside the model (Model/AlgebraicAssembly.lean) and tied to the code by an oracle protocol: the driver runs the exact model and asks the caller for every external numeric (np.sqrt, matrix_rank, polyroots, polyfit), which the script answers with numpy (props/c15.py: on the pairs where the implementation returns exactly the certified set, model and implementation agree on every pair)',
+                'proved in exact arithmetic (Props/C15Algebraic): intersection_polynomial_root_iff (t is a root <=> the implicit function vanishes at B2(t) <=> a common point exists over every algebraically closed extension, for the hand-inverted pairs 1-1 .. 2-2); algebraic_sound (exact polyroots, exact locate, no nearly-real complex root in the window: every returned pair is the wiggle-snapped image of an exact solution, inside [0,1]^2); algebraic_complete (additionally square-free polynomial, injective located curve: every solution with parameters in [w, 1-w] is returned exactly once; solutions within the window outside are snapped); algebraic_total (every input returns or raises exactly one of the listed refusals, never RuntimeError); strategies_agree_spec (both strategies against the exact solution set: the geometric half only has the unit-square statement, its coverage is C03 partial)',
+                'hypotheses that remain: exactness of the external polynomial root finder, ExactLocate at the queried points (false in general for the thresholded locate_point: decided example), square-freeness is assumed rather than derived from _check_non_simple, statements are about the reduced nets; the polyfit pairs 2-3, 2-4, 3-3 are covered by soundness and totality only',
+                'equality is not claimed for degree products 6..9 (least-squares fit): silent misses there are measured and kept visible as pinned probes',
+    ],
     'trusted_base': ['harness/isolate.py (exact rational subdivision + Krawczyk certificates): the specification of the solution '
                      'set and of the domain', 'exact resultant (Sylvester determinant over Q, interpolation) in props/c15.py: used '
                      'only to CLASSIFY refusals (square-free / repeated root / zero intersection polynomial), never to accept a '
